@@ -67,6 +67,11 @@ Proof. repeat split. Qed.
 Lemma K_lk_sobg_nbroadcast : lk_sobg_nbroadcast = 2.
 Proof. reflexivity. Qed.
 
+Lemma K_lk_i3_alleq b : lk_i3_alleq_test b = negb b /\ lk_i3_alleq_nifs = 2.
+Proof. split; reflexivity. Qed.
+Lemma K_lk_pdfprod_case1 a b : lk_pdfprod_case1 a b = a && b /\ lk_pdfprod_nifs = 3.
+Proof. split; reflexivity. Qed.
+
 Lemma combine_app {A B} (a1 a2 : list A) (b1 b2 : list B) :
   length a1 = length b1 -> combine (a1 ++ a2) (b1 ++ b2) = combine a1 b1 ++ combine a2 b2.
 Proof.
